@@ -385,6 +385,17 @@ class StmtMixin:
             if isinstance(cur, Cst) and isinstance(cur.value, bool):
                 if self.decide(f"loopcarried:{name}@{st.lineno}", ["first", "later"]) == "later":
                     fr.locals[name] = Cst(not cur.value)
+            elif isinstance(cur, Cst) and cur.value is None:
+                # "not seen yet" marker replaced by something in an earlier iteration
+                # ("later" = an assignment of the body ran in an earlier iteration)
+                if self.decide(f"loopcarried:{name}@{st.lineno}", ["first", "later"]) == "later":
+                    u = Unknown(f"earlier({name})")
+                    rhs = [
+                        n.value for n in ast.walk(ast.Module(body=st.body, type_ignores=[]))
+                        if isinstance(n, ast.Assign) and any(isinstance(t, ast.Name) and t.id == name for t in n.targets)
+                    ]
+                    u.not_none = bool(rhs) and all(not (isinstance(r, ast.Constant) and r.value is None) and not isinstance(r, ast.IfExp) for r in rhs)
+                    fr.locals[name] = u
             elif isinstance(cur, (TNode, Sym, Cst, Hole, Str, StrOp, Unknown)) and not isinstance(cur, PList):
                 h = TNode("$NestHole", {"name": Cst(name), "init": cur}, site)
                 holes[name] = (cur, h)
